@@ -32,11 +32,48 @@ PROPS = {
     },
 }
 
+PROPS["C18"] = {
+    "modules": ["TaffyVerif.Props.C18"],
+    "theorems": [
+        "C18.pack_tag", "C18.pack_value", "C18.pack_low3", "C18.from_val_tag", "C18.from_val_value",
+        "C18.tags_distinct", "C18.tags_small_nonzero_low3", "C18.calc_tag_zero",
+        "C18.length_roundtrip", "C18.percent_roundtrip", "C18.fr_roundtrip", "C18.fit_content_px_roundtrip",
+        "C18.fit_content_percent_roundtrip", "C18.unit_tags", "C18.numeric_not_calc", "C18.unit_not_calc",
+        "C18.calc_roundtrip", "C18.calc_tag_separate", "C18.predicates_length", "C18.predicates_percent",
+        "C18.predicates_fr", "C18.predicates_fit_content", "C18.predicates_unit", "C18.is_zero_iff",
+        "C18.resolve_length", "C18.resolve_percent", "C18.resolve_auto", "C18.resolve_or_zero_spec", "C18.resolve_calc",
+    ],
+    "harness": "C18", "driver": "C18", "monitor": False,
+    "rule": "stratified 32-bit payloads (every exponent, NaN payload edges, single-bit and low-byte patterns that would alias a tag "
+            "under an off-by-one shift) × the five numeric constructors, each also resolved through LengthPercentage / "
+            "LengthPercentageAuto / Dimension / Min-/MaxTrackSizingFunction against None/Some contexts, plus 8-aligned calc pointers; "
+            "thorough additionally checks all 2^32 payloads × 5 constructors on the implementation against the theorems' conclusion. "
+            "Distinct = distinct transcripts; every case is non-trivial (it constructs and reads back a value).",
+    "trusted_base": [
+        "Generated/CompactLength.lean is produced by /verif/extract (syn-based translator, my code) from the 64-bit arm of "
+        "src/style/compact_length.rs under the default feature set; f32 values are modelled as their bit patterns "
+        "(f32_to_bits / f32_from_bits are transmutes)",
+        "typed wrappers and resolvers (dimension.rs, grid.rs Min/MaxTrackSizingFunction, resolve.rs) are hand-written in "
+        "Model/Lengths.lean with f32 multiplication and the calc resolver as parameters; tied by the correspondence run",
+    ],
+    "assumptions": ["32-bit targets use a different cfg arm of CompactLengthInner that is not translated",
+                    "serde (de)serialisation is not modelled"],
+    "level_text": "For every 32-bit payload and every numeric constructor: tag and value round-trip bit-identically; tags are pairwise "
+                  "distinct, fit the low byte and have a non-zero low-3-bit field; every non-null 8-aligned pointer is stored losslessly "
+                  "as calc and its low byte equals none of the other tags; predicates agree with the constructor; resolution returns the "
+                  "built value / basis·fraction / None / 0 as specified. Theorems are about definitions regenerated from the Rust source "
+                  "on every run, so they are re-checked against what the code says now; wrappers are tied by bit-exact correspondence.",
+    "level_note": "Trusted: Lean kernel; my Rust→Lean translator for the bit-manipulation fragment (cross-checked by running the "
+                  "generated definitions against the implementation); hand-written wrapper/resolver model. Axioms: propext, "
+                  "Classical.choice, Quot.sound (kernel-only proofs; no bv_decide, no native_decide).",
+    "technique": "Lean 4 theorems over BitVec 64 definitions translated from the Rust source on every run + differential correspondence",
+}
+
 HOOK_COMMITS = [
     "5207efe",
 ]
 
 _pending = "check not built yet in this revision of /verif (planned, see DESIGN.md §8)"
 NOT_APPLICABLE = {p: _pending for p in
-                  ["C01", "C03", "C04", "C05", "C06", "C07", "C08", "C09", "C10", "C11", "C12", "C13", "C14", "C15", "C16", "C17", "C18", "C19"]}
+                  ["C01", "C03", "C04", "C05", "C06", "C07", "C08", "C09", "C10", "C11", "C12", "C13", "C14", "C15", "C16", "C17", "C19"]}
 
